@@ -221,6 +221,11 @@ func deepCopy(src *lazyNode, options *ApplyOptions) (*lazyNode, int, error) {
 	if err != nil {
 		return nil, 0, err
 	}
+	// The copy is stored as a raw message that is parsed lazily by a decoder which assumes
+	// valid input: a value nested deeper than the decoder accepts must not get that far.
+	if !json.Valid(a) {
+		return nil, 0, fmt.Errorf("copied value is nested too deeply: %w", ErrInvalid)
+	}
 	sz := len(a)
 	return newLazyNode(newRawMessage(a)), sz, nil
 }
